@@ -62,7 +62,7 @@ def random_nfa(rnd, n, Sigma, eps='', kind=None, names=None):
 
 def random_pda(rnd, nq=3, Sigma=('a', 'b'), Gamma=('x', 'y'), nt=5, eps='', default=True):
     Q = ['p%d' % i for i in range(rnd.randint(1, nq))]
-    Sg = list(Sigma)[:rnd.randint(1, len(Sigma))]; Gm = list(Gamma)[:rnd.randint(1, len(Gamma))]
+    Sg = list(Sigma)[:rnd.randint(1, len(Sigma))]; Gm = list(Gamma)[:rnd.randint(1, len(Gamma))] if len(Gamma) <= 2 else list(Gamma)
     delta = defaultdict(set) if default else {}
     for _ in range(rnd.randint(0, nt)):
         k = (rnd.choice(Q), rnd.choice(Sg + [eps]), rnd.choice(Gm + [eps]))
